@@ -357,6 +357,13 @@ def r6_macro_arguments_in_caller_scope(ctx: Ctx) -> None:
     r1_arguments_in_caller_scope(ctx)
 
 
+def r7_symbol_values_stored_verbatim(ctx: Ctx) -> None:
+    """`scopename.name with the same value`, and any definition: the table stores the value given (shared with C06.R6)"""
+    from .c06 import symbol_values_stored_verbatim
+
+    symbol_values_stored_verbatim(ctx)
+
+
 def rb_binding_agreement(ctx: Ctx) -> None:
     from ..ownership import binding_agreement
 
@@ -370,4 +377,4 @@ def rm_no_process_lifetime_results(ctx: Ctx) -> None:
     state_rule(ctx)
 
 
-RULES = [r1_generator_pairing, r2_replay_agreement, r3_lookup_chain, r4_export, r5_who_may_write, r6_macro_arguments_in_caller_scope, rb_binding_agreement, rm_no_process_lifetime_results]
+RULES = [r1_generator_pairing, r2_replay_agreement, r3_lookup_chain, r4_export, r5_who_may_write, r6_macro_arguments_in_caller_scope, r7_symbol_values_stored_verbatim, rb_binding_agreement, rm_no_process_lifetime_results]
